@@ -256,14 +256,65 @@ def check_mut(crate, rep, cfg):
             tr = Tracer(b)
             muts = [bb for bb, t in b.calls() if callee_def(t).rsplit("::", 1)[-1] in ("insert",) and rrec.field_of_arg(tr, t["args"][0]) == ".templates"] + \
                    [bb for bb, t in find_calls(b, ["tera::Tera::add_file"])]
-            removed = frozenset(fins | c06.error_exit_blocks(b))
             leak = False
             for m in muts:
-                reach = b.reach_from(m, removed_blocks=removed)
-                if any(b.term(x)["k"] == "return" for x in reach):
+                bad_ret = explore_after_mutation(b, crate, m, fins)
+                if bad_ret is not None:
                     leak = True
-                    detail = "return reachable from the mutation at %s without finalize_templates" % b.where(m)
+                    detail = "return at %s reachable from the mutation at %s without finalize_templates (and without restoring the map)" % (b.where(bad_ret), b.where(m))
             ok = not leak and bool(muts)
         key = "C10.MUT:%s:reaches-finalize" % root
         (rep.ok if ok else rep.bad)("C10.MUT", key, crate.bodies[root].where(0), "%s re-runs finalize_templates on every non-error path after changing the map" %
                                     root.rsplit("::", 1)[-1] + ("" if ok else " — VIOLATED: " + (detail or "no finalize call found")))
+
+
+def explore_after_mutation(b, crate, start, fins):
+    """value-sensitive exploration: every return reached after a map mutation has passed finalize_templates, or carries an Err
+    with the previous map restored (whole-map swap), or is a `?` error exit (the caller's undo branch handles those)."""
+    ef = EdgeFacts(b, crate)
+    err_exits = c06.error_exit_blocks(b)
+    RES = "std::result::Result<(), errors::Error>"
+    is_err_edges = {}
+    for sb in sorted(b.reachable):
+        if b.term(sb)["k"] != "switch":
+            continue
+        for tgt, fl in ef.facts_for_switch(sb).items():
+            for f in fl:
+                if f[0] == "call" and f[1].endswith("::is_err"):
+                    is_err_edges[(sb, tgt)] = f[3]
+    seen = set()
+    work = [(start, "none", False)]
+    while work:
+        st = work.pop()
+        if st in seen:
+            continue
+        seen.add(st)
+        bb, tag, restored = st
+        if bb in fins:
+            tag = "fin"
+        for s in b.blocks[bb]["s"]:
+            if s["k"] != "assign":
+                continue
+            rv = s["rv"]
+            if rv["k"] == "agg" and rv.get("adt") == "std::result::Result" and rv.get("variant") == "Err" and b.local_ty(s["pl"]["l"]) == RES and not s["pl"]["p"]:
+                if tag != "fin":
+                    tag = "err"
+            if pl_projs(s["pl"])[-1:] == [".templates"]:
+                restored = True
+        t = b.term(bb)
+        if t["k"] == "call" and b.local_ty(t["dest"]["l"]) == RES and not t["dest"]["p"] and bb not in fins and tag != "fin":
+            # a Result produced by another call (e.g. `Err(e) => Err(e)` lowered through a move): unknown
+            pass
+        if t["k"] == "return":
+            if tag == "fin" or (tag == "err" and restored) or bb in err_exits:
+                continue
+            return bb
+        if bb in err_exits and bb != start:
+            continue
+        for tgt in b.succ[bb]:
+            if (bb, tgt) in is_err_edges and tag == "err" and is_err_edges[(bb, tgt)] is False:
+                continue
+            if (bb, tgt) in is_err_edges and tag == "fin" and False:
+                continue
+            work.append((tgt, tag, restored))
+    return None
